@@ -82,6 +82,12 @@ def special_grammars():
     out.append(('kwstart:class', grammar(rule('class', seq(a, call('def'))), rule('def', opt(b)))))
     out.append(('kwstart:import', grammar(rule('import', star(alt(a, b))))))
     out.append(('isname', grammar(rule('s', star(call('y'))), rule('y', pat(['a', 'b'], 1, True), isname=True), keywords=['ab', 'b'])))
+    # rule names that differ only in trailing / leading underscores (the generator appends '_' to reserved words; every other name
+    # is the rule's own): siblings tried at the same position must keep their own memo entries and results
+    out.append(('underscore-siblings', grammar(rule('s', alt(seq(call('y_'), b), seq(call('y'), a), call('y__'))),
+                                               rule('y', seq(a, a)), rule('y_', seq(a, b)), rule('y__', seq(a, opt(a))))))
+    out.append(('underscore-siblings-2', grammar(rule('s', seq(alt(call('_y'), call('y_')), star(call('y')))),
+                                                 rule('y', alt(a, b)), rule('y_', seq(b, a)), rule('_y', seq(a, b, b)))))
     return out
 
 
